@@ -293,7 +293,7 @@ func (m *MultiRun) Execute() {
 			}
 			approved := false
 			for _, r := range m.Runs {
-				if r.pausedSeenAt >= 0 && len(r.userQueue) == 0 && r.mode == "release" {
+				if r.pausedSeenAt >= 0 && len(r.userQueue) == 0 && r.approving() {
 					r.userQueue = append(r.userQueue, "approve")
 					approved = true
 				}
